@@ -15,12 +15,12 @@ PY
 LL=$(tail -1 /tmp/h_cfg_$$.txt)
 case "$LL" in *.ll) ;; *) cat /tmp/h_cfg_$$.txt; exit 1;; esac
 cd /verif/engine
-timeout $3 python3-vt explore.py $LL --cfg /tmp/h_cfg_$$.json -v --out /tmp/h_res_last.json > /tmp/h_out_$$.log 2>&1
+timeout $3 python3-vt explore.py $LL --cfg /tmp/h_cfg_$$.json -v --out ${H_OUT:-/tmp/h_res_last.json} > /tmp/h_out_$$.log 2>&1
 echo rc=$?
 grep -E "^step" /tmp/h_out_$$.log | tail -2
 python3 - <<'PY'
 import json
-try: r = json.load(open('/tmp/h_res_last.json'))
+try: r = json.load(open(__import__("os").environ.get("H_OUT", "/tmp/h_res_last.json")))
 except Exception as e: print('no result', e); raise SystemExit
 print('verdict', r.get('verdict'), 'build_s', round(r.get('build_s', 0), 1), 'ins', r.get('stats', {}).get('ins'), str(r.get('reason', ''))[-600:])
 for q in r.get('queries', []): print('  %-18s %-8s %6.1fs %s' % (q['name'], q['result'], q['solver_s'], str(q.get('reason', ''))[:300]))
